@@ -8,7 +8,8 @@ import Operon.Gen.QuorumConsts
   Python's float comparisons and the exact ones provably coincide (see harness/vf/props/c06.py).
 
   Modelled glue: `custom_threshold or DEFAULT` (a custom threshold of 0 is falsy), the action-type →
-  vote-type mapping, the default confidence 1.0, `weight * reliability_score`, failed voters (raising
+  vote-type mapping, the default confidence 1.0, a reported confidence clamped into [0, 1] and NaN rejected
+  (fix: commit after the audit, see notes/C06.md), `weight * reliability_score`, failed voters (raising
   `express`, non-numeric confidence) recorded as zero-confidence ABSTAIN carrying the bare profile weight,
   the `min_voters` gate on permit+block, the share-of-colony / `math.ceil` reading of the count threshold,
   `threshold / len(colony)`.  (Behaviour after the two `fix:` commits 7c2ca31 and 7123d76.)
@@ -48,8 +49,8 @@ inductive Kind where
 /-- The `confidence` entry of the returned payload. -/
 inductive Conf where
   | absent            -- payload is not a dict or has no "confidence" key: 1.0
-  | num (c : Rat)     -- `float(payload["confidence"])` succeeds
-  | bad               -- `float(...)` raises
+  | num (c : Rat)     -- `float(payload["confidence"])` succeeds (±inf: any value beyond the clamp, i.e. 1 / 0)
+  | bad               -- `float(...)` raises, or gives NaN (rejected)
   deriving Repr, DecidableEq
 
 /-- One colony member as seen by `run_vote`: agent behaviour + `AgentProfile.weight/reliability_score`. -/
@@ -76,6 +77,9 @@ def voteTypeOf : Kind → VoteType
   | .other => .abstain
   | .raises => .abstain
 
+/-- `max(0.0, min(1.0, x))` -/
+def clamp01 (x : Rat) : Rat := if x < 0 then 0 else if x > 1 then 1 else x
+
 /-- `except Exception:` branch of the collection loop. -/
 def failedVote (v : Voter) : Vote := ⟨.abstain, 0, v.weight⟩
 
@@ -87,7 +91,7 @@ def toVote (v : Voter) : Vote :=
     match v.conf with
     | .bad => failedVote v
     | .absent => ⟨voteTypeOf k, 1, v.weight * v.rel⟩
-    | .num c => ⟨voteTypeOf k, c, v.weight * v.rel⟩
+    | .num c => ⟨voteTypeOf k, clamp01 c, v.weight * v.rel⟩   -- a reported confidence is clamped into [0, 1]
 
 def collect (voters : List Voter) : List Vote := voters.map toVote
 
@@ -167,9 +171,6 @@ def confidenceVote (cfg : Cfg) (vs : List Vote) : Result :=
 
 /-- `likelihood = 0.5 + (vote.confidence * 0.4)` -/
 def likelihood (c : Rat) : Rat := likBase + c * likGain
-
-/-- `max(0.0, min(1.0, x))` -/
-def clamp01 (x : Rat) : Rat := if x < 0 then 0 else if x > 1 then 1 else x
 
 /-- `_bayesian_update`: the prior times the weight-adjusted likelihood, kept inside [0, 1] -/
 def bayesUpdate (prior lik w : Rat) : Rat := prior * clamp01 (adjBase + (lik - adjCentre) * w)
